@@ -93,6 +93,12 @@ def case_text(b):
         return "set %s(%s) %s %s(%s) as %s" % (c["vt"], c["l"], c["op"], c["rt"], c["r"], c["form"])
     if c["k"] == "builtin":
         return "%s%s classes %s" % (c["fn"], c["types"], c["classes"])
+    if c["k"] == "jump":
+        return "%s %s in a %s subroutine called from vcl_%s" % (c["jstmt"], c["nest"], c["callkind"], c["scope"])
+    if c["k"] == "initerr":
+        return "init-error program %s x %d requests on one instance" % (c["class"], c["nreq"])
+    if c["k"] == "director":
+        return "director %s weight=%s quorum=%s retries=%s" % (c["dtype"], c["weight"], c["quorum"], c["retries"])
     if c["k"] == "prog":
         return "random program of %d statements" % len(b["prog"]["stmts"])
     if c["k"] == "request":
@@ -139,6 +145,9 @@ def run(ctx):
         ("calls", dict(common, cfg="Total_calls.cfg", tag="calls", defines={"MaxReq": "2" if quick else "3"})),
         ("include", dict(common, cfg="Total_include.cfg", tag="include")),
         ("request", dict(common, cfg="Total_request.cfg", tag="request")),
+        ("jump", dict(common, cfg="Total_jump.cfg", tag="jump")),
+        ("initerr", dict(common, cfg="Total_initerr.cfg", tag="initerr")),
+        ("director", dict(common, cfg="Total_director.cfg", tag="director")),
         ("lifecycle", dict(module="LifecycleTotal", cfg="LifecycleTotal.cfg", workers=2, timeout=1500, tag="lifecycle",
                            extra_files=[lifecycle_cfg(ctx, dict({"Urls": '{"a"}', "JailChoices": "{FALSE}", "MaxRestarts": "3"},
                                                               **({"MaxReq": "2", "KCover": "2", "Statuses": "{200}"} if quick else
@@ -166,8 +175,9 @@ def run(ctx):
                                      "(not all paths)")
 
     cases = []
-    for name in ("assign", "builtin", "calls", "include", "request"):
-        cases += load_cases([res[name].beh_path], name[0])
+    for name, pre in (("assign", "a"), ("builtin", "b"), ("calls", "c"), ("include", "i"), ("request", "r"), ("jump", "j"),
+                      ("initerr", "e"), ("director", "d")):
+        cases += load_cases([res[name].beh_path], pre)
     # lifecycle behaviours are wrapped into the case format
     import itertools
     with open(res["lifecycle"].beh_path) as f1, open(res["lifewalk"].beh_path) as f2:
@@ -242,8 +252,13 @@ def classify(ctx, cases, results):
         rec["key"] = r.get("text") or json.dumps(c, sort_keys=True)
         if out not in b.get("allowed", ["value", "error"]):
             rec["mismatch"] = [{"obs": out, "family": c["k"], "case": case_text(b), "msg": (r.get("msg") or "")[:300]}]
+            fs = ctx.notes.setdefault("failing_summary", {})
+            key = "%s %s: %s: %s" % (c["k"], c.get("fn") or c.get("dtype") or c.get("class") or c.get("callkind") or c.get("op") or "", out,
+                                      (r.get("msg") or "")[:70])
+            if key in fs or len(fs) < 40:
+                fs[key] = fs.get(key, 0) + 1
         else:
-            if c["k"] == "lifecycle" and r.get("restarts", 0) > 3:
+            if r.get("restarts", 0) > 3:
                 rec["mismatch"] = [{"obs": "restarts-exceed-3", "got": r.get("restarts")}]
             pred = b.get("predict", "any")
             if pred != "any" and pred != out:
